@@ -4,10 +4,13 @@ R-C06-1  every branch whose test depends on a `.value` (If / IfExp / and-or / co
          has arms with equal emission summaries (or the deviating arm raises);
 R-C06-2  no emitting loop / comprehension iterates over a value-dependent space;
 R-C06-4  no value-dependent number flows into backend linear-combination arithmetic
-         (coefficients and wire expressions are program constants).
+         (coefficients and wire expressions are program constants);
+R-C06-5  wire-valued results produced under value-dependent control have the same wire expression on every arm.
 (R-C06-3, the classification of structural tests - `is None`, isinstance, callable, len -
  is built into the taint engine: those constructs are not taint sources / propagators.)
 """
+import ast
+
 from ..absint import Interp
 from ..efftree import nf, eq_mod_raise, render, has_events, always_raises
 from ..loader import norm
@@ -122,6 +125,147 @@ def count_public_loops(repo, rule, modules=None):
     return out
 
 
+ALLOC = ("PrivVal", "PubVal", "PrivValBool", "PubValBool", "PrivValFxp", "PubValFxp")
+CTORS = ("PrivVal", "PubVal", "ConstVal", "PrivValBool", "PubValBool", "PrivValFxp", "PubValFxp", "LinComb", "LinCombBool",
+         "LinCombFxp", "from_bits")
+
+
+def skeleton(expr, tainted_names):
+    """Source text of a wire-valued expression with every value-dependent *scalar* sub-expression replaced by `@`
+    and comprehension variables alpha-renamed: two arms that build the same wire expression from different secret
+    numbers have the same skeleton."""
+    import ast as _ast
+    import copy
+    renames = {}
+
+    def leaf_tainted(n):
+        if isinstance(n, _ast.Attribute) and n.attr == "value":
+            return True
+        if isinstance(n, _ast.Name) and n.id in tainted_names:
+            return True
+        if isinstance(n, _ast.Call) and norm(n.func) in ("is_guard", "ignore_errors"):
+            return True
+        return False
+
+    AT = _ast.Name(id="@", ctx=_ast.Load())
+
+    def go(n):
+        if leaf_tainted(n):
+            return AT
+        if isinstance(n, (_ast.ListComp, _ast.GeneratorExp)):
+            n = copy.copy(n)
+            gens = []
+            for g in n.generators:
+                g2 = copy.copy(g)
+                for x in _ast.walk(g.target):
+                    if isinstance(x, _ast.Name):
+                        renames[x.id] = "_v%d" % len(renames)
+                g2.iter = go(g.iter)
+                g2.ifs = [go(i) for i in g.ifs]
+                g2.target = go(g.target)
+                gens.append(g2)
+            n.generators = gens
+            n.elt = go(n.elt)
+            return n
+        if isinstance(n, _ast.Name):
+            return _ast.Name(id=renames.get(n.id, n.id), ctx=_ast.Load())
+        if isinstance(n, _ast.Call):
+            n2 = copy.copy(n)
+            n2.args = [go(a) for a in n.args]
+            n2.keywords = [_ast.keyword(arg=k.arg, value=go(k.value)) for k in n.keywords]
+            n2.func = go(n.func) if not isinstance(n.func, _ast.Name) else n.func
+            short = norm(n.func).split(".")[-1]
+            if short in ALLOC and n.args:
+                n2.args = [AT] + n2.args[1:]          # the hint of a fresh witness is a number, never part of the wire
+            if short == "LinComb" and len(n.args) == 2:
+                n2.args = [AT, n2.args[1]]            # LinComb(value, lc): only the lc is the wire expression
+            if short not in CTORS and any(a is AT for a in n2.args) and short in ("int", "abs", "bool", "bit_length", "fieldinverse", "min", "max", "len"):
+                return AT
+            if isinstance(n.func, _ast.Attribute) and go(n.func.value) is AT:
+                return AT
+            return n2
+        if isinstance(n, (_ast.BinOp, _ast.UnaryOp, _ast.Compare, _ast.IfExp, _ast.BoolOp, _ast.Subscript)):
+            kids = [go(c) for c in _ast.iter_child_nodes(n) if isinstance(c, _ast.expr)]
+            if any(k is AT for k in kids):
+                return AT
+            n2 = copy.copy(n)
+            for fld, val in _ast.iter_fields(n):
+                if isinstance(val, _ast.expr):
+                    setattr(n2, fld, go(val))
+                elif isinstance(val, list) and val and isinstance(val[0], _ast.expr):
+                    setattr(n2, fld, [go(v) for v in val])
+            return n2
+        if isinstance(n, (_ast.Tuple, _ast.List)):
+            n2 = copy.copy(n)
+            n2.elts = [go(e) for e in n.elts]
+            return n2
+        if isinstance(n, _ast.Attribute):
+            n2 = copy.copy(n)
+            n2.value = go(n.value)
+            return n2
+        return n
+    try:
+        return norm(go(expr))
+    except Exception:
+        return norm(expr)
+
+
+def eval_wire_choices(repo, rule, modules=None):
+    """R-C06-5: wire-valued results produced under value-dependent control have the same wire expression
+    (up to the secret numbers hinted into fresh witnesses) on every arm."""
+    it = get_interp(repo)
+    by_fn = {}
+    for key, w in it.wire_choices.items():
+        if not relevant(w["fi"].module.name, modules):
+            continue
+        by_fn.setdefault(w["fi"].fq, []).append(w)
+    for fq, ws in sorted(by_fn.items()):
+        fi = ws[0]["fi"]
+        if fq in SUPPRESS:
+            continue
+        # resolve names returned to the skeleton of their (arm-local) assignment
+        assigns = [w for w in ws if w["kind"] == "assign"]
+        rets = [w for w in ws if w["kind"] == "ret"]
+        groups = {}
+        for w in assigns:
+            if not w["gov"]:
+                continue
+            groups.setdefault((w["name"], 0, " / ".join(sorted({g[1] for g in w["gov"]}))[:0]), []).append(w)
+        for (name, cid, _x), lst in sorted(groups.items(), key=lambda kv: kv[0][0]):
+            test = " ; ".join(sorted({w["gov"][-1][1] for w in lst}))
+            sk = {}
+            for w in lst:
+                sk.setdefault(skeleton(w["value"], w["tainted_names"]), []).append(w)
+            where = fi.loc(lst[0]["stmt"])
+            term = "`%s` under `%s`: %s" % (name, test, " | ".join(sorted(sk)))
+            if len(sk) == 1:
+                rule.ok(where, fq, term, "same wire expression on every arm")
+            else:
+                rule.violation(where, fq, term, "the wire expression bound to `%s` depends on a secret value (different arms build "
+                               "different wires): later constraints mention different wires for different inputs" % name,
+                               "%s/wire/%s/%s" % (fq, name, test))
+        if len(rets) > 1:
+            sk = {}
+            for w in rets:
+                v = w["value"]
+                s_ = None
+                if isinstance(v, ast.Name):
+                    # the name's assignment(s) under tainted control decide; if consistent use that skeleton
+                    cands = {skeleton(a["value"], a["tainted_names"]) for a in assigns if a["name"] == v.id}
+                    if len(cands) == 1:
+                        s_ = "%s := %s" % (v.id, cands.pop())
+                if s_ is None:
+                    s_ = skeleton(v, w["tainted_names"])
+                sk.setdefault(s_, []).append(w)
+            where = fi.loc(rets[0]["stmt"])
+            term = "returns under value-dependent control: %s" % " | ".join(sorted(sk))
+            if len(sk) == 1:
+                rule.ok(where, fq, term, "same wire expression whichever way the secret test goes")
+            else:
+                rule.violation(where, fq, term, "which wire expression is returned depends on a secret value: the constraint "
+                               "system built from the result differs between inputs", "%s/wire/return" % fq)
+
+
 def check(repo, rep, tier):
     rep.explanation = (
         "Non-interference analysis over the ast of the value-level modules: taint sources are reads of `.value` "
@@ -156,6 +300,8 @@ def check(repo, rep, tier):
         seen.add(ident)
         where = "%s:%s" % (f["module"].relpath, f["node"].lineno)
         r4.violation(where, f["fq"], ident[1], f["msg"], "%s/%s" % ident)
+    r5w = rep.rule("R-C06-5", "wire expressions chosen under value-dependent control are the same on every arm", floor=3)
+    eval_wire_choices(repo, r5w, mods)
     # positive instances: lc arithmetic sites with public scalars
     n_lc = 0
     import ast
